@@ -394,15 +394,10 @@ func runC02(c *Ctx) {
 
 	// ---------- R4 reply type legality ----------
 	{
-		// os server: per case of handlePacket, via the phi feeding newOrderedResponse
-		var rpktVal ssa.Value
-		eachInstr(handle, func(in ssa.Instruction) {
-			if cc := callOf(in); cc != nil && calleeName(cc) == "newOrderedResponse" {
-				rpktVal = argsOf(cc)[0]
-			}
-		})
+		// os server: per case of handlePacket, via the phi feeding the response that is handed to the packet manager
+		rpktVal := p.responseValueIn(handle)
 		if rpktVal == nil {
-			c.und("R4", "handlePacket response value", p.Pos(handle.Pos()), "cannot find newOrderedResponse")
+			c.und("R4", "handlePacket response value", p.Pos(handle.Pos()), "cannot find the response value that handlePacket hands to the packet manager")
 		} else {
 			// edges of the phi grouped by case body
 			perCase := map[*ssa.BasicBlock]map[string]bool{}
@@ -533,83 +528,88 @@ func runC02R3(c *Ctx) {
 		c.missing("R3", "packetManager")
 		return
 	}
-	newOID := p.Func("(*packetManager).newOrderID")
-	newReq := p.Func("(*packetManager).newOrderedRequest")
-	newResp := p.Func("(*packetManager).newOrderedResponse")
 	ctrl := p.Func("(*packetManager).controller")
 	maybe := p.Func("(*packetManager).maybeSendPackets")
-	for n, f := range map[string]*ssa.Function{"newOrderID": newOID, "newOrderedRequest": newReq, "newOrderedResponse": newResp, "controller": ctrl, "maybeSendPackets": maybe} {
+	for n, f := range map[string]*ssa.Function{"controller": ctrl, "maybeSendPackets": maybe} {
 		if f == nil {
 			c.missing("R3", "(*packetManager)."+n)
 			return
 		}
 		c.looked(fnName(f))
 	}
-	// packetCount written only in newOrderID, as an increment by one
-	nw := 0
-	for _, fn := range p.LibFuncs() {
-		eachInstr(fn, func(in ssa.Instruction) {
-			st, ok := in.(*ssa.Store)
-			if !ok {
-				return
-			}
-			fa, ok := st.Addr.(*ssa.FieldAddr)
-			if !ok {
-				return
-			}
-			t, name, _, ok := fieldOf(fa)
-			if !ok || name != "packetCount" || typeName(t) != "packetManager" {
-				return
-			}
-			nw++
-			good := fn == newOID
-			if good {
-				b, ok := st.Val.(*ssa.BinOp)
-				one, isOne := int64(0), false
-				if ok {
-					one, isOne = constInt(b.Y)
-				}
-				good = ok && b.Op == token.ADD && isOne && one == 1
-			}
-			c.check(good, "R3", "write of packetCount in "+fnName(fn), pos(in), "order counter only advances by one in newOrderID", "order counter is written outside newOrderID or not by +1: order ids may repeat or go backwards")
-		})
-	}
-	if nw == 0 {
-		c.bad("R3", "write of packetCount", p.Pos(newOID.Pos()), "the order counter is never advanced: every request gets the same order id")
-	}
-	// the id issued is the counter's new value itself (not a reduction of it): ids are pairwise distinct and increasing
-	for _, rl := range returnLeaves(newOID, 0) {
-		t := affineOf(rl.v)
-		good := len(t.coef) == 1 && (t.c == 0 || t.c == 1)
-		for k, v := range t.coef {
-			if v != 1 || !strings.HasSuffix(k, ".packetCount") {
-				good = false
-			}
-		}
-		c.check(good, "R3", "newOrderID returns the counter", p.Pos(newOID.Pos()), "the issued id is the advanced counter", "newOrderID returns "+t.String()+" instead of the advanced counter: order ids can repeat, and the sort by order id no longer reflects arrival order")
-	}
-	// newOrderID callers
-	for _, in := range p.callersOfStatic(newOID) {
-		c.check(in.Parent() == newReq, "R3", "caller of newOrderID: "+fnName(in.Parent()), pos(in), "order ids are issued only for received requests", "newOrderID called outside newOrderedRequest")
-	}
-	// newOrderedRequest callers: the two receive loops, not in closures, in the loop that receives
-	for _, in := range p.callersOfStatic(newReq) {
-		fn := in.Parent()
-		ok := (fnName(fn) == "(*Server).Serve" || fnName(fn) == "(*RequestServer).serveLoop") && fn.Parent() == nil && inLoop(in)
+	w := p.oid()
+	// the counter only ever advances by one
+	for _, st := range w.advances {
+		b, ok := st.Val.(*ssa.BinOp)
+		one, isOne := int64(0), false
 		if ok {
-			// a recvPacket call of the same loop dominates it
+			one, isOne = constInt(b.Y)
+		}
+		good := ok && b.Op == token.ADD && isOne && one == 1
+		c.looked(fnName(st.Parent()))
+		c.check(good, "R3", "write of packetCount in "+fnName(st.Parent()), pos(st), "order counter only advances by one", "order counter is not advanced by +1: order ids may repeat or go backwards")
+	}
+	if len(w.advances) == 0 {
+		c.bad("R3", "write of packetCount", "?", "the order counter is never advanced: every request gets the same order id")
+	}
+	// the order id of a request is the advanced counter itself (not a reduction of it): pairwise distinct and increasing
+	nReq := 0
+	for _, a := range p.literalsOfType("orderedRequest") {
+		v := litFieldWhere(a, isBasicKind(types.Uint32))
+		if v == nil {
+			continue
+		}
+		nReq++
+		c.check(w.issuedValue(v, 0), "R3", "order id of a request built in "+fnName(a.Parent())+" is the advanced counter", pos(a), "the issued id is the advanced counter",
+			"a request is given an order id that is not the freshly advanced counter ("+affineOf(v).String()+"): order ids can repeat, and the sort by order id no longer reflects arrival order")
+	}
+	c.check(nReq >= 1, "R3", "requests are numbered", "?", fmt.Sprintf("%d literals", nReq), "no orderedRequest is built with an order id")
+	// the counter is advanced only by the receive loops, once the packet has been received: a function that advances it
+	// is called only by another such function or by a receive loop, in the loop, after recvPacket
+	isRecvLoop := func(fn *ssa.Function) bool {
+		n := fnName(fn)
+		return (n == "(*Server).Serve" || n == "(*RequestServer).serveLoop") && fn.Parent() == nil
+	}
+	nIssue := 0
+	for f := range w.advFns {
+		if len(p.refsAsValue(f)) > 0 {
+			c.bad("R3", "callers of "+fnName(f), p.Pos(f.Pos()), "a function that advances the order counter is used as a value: its callers cannot be enumerated")
+		}
+		for _, in := range p.callersOfStatic(f) {
+			fn := in.Parent()
+			if w.advFns[fn] {
+				continue
+			}
+			nIssue++
+			ok := isRecvLoop(fn) && inLoop(in)
+			if ok {
+				dom := false
+				for _, r := range callsWhere(fn, func(cc *ssa.CallCommon) bool { return calleeName(cc) == "recvPacket" }) {
+					lr, li := innermostLoop(loopsOf(fn), r.Block()), innermostLoop(loopsOf(fn), in.Block())
+					if dominates(r, in) && lr != nil && li != nil && lr.head == li.head {
+						dom = true
+					}
+				}
+				ok = dom
+			}
+			c.check(ok, "R3", "order id issued in "+fnName(fn), pos(in), "order id is taken in the single receive loop, right after the packet was received", "order id is taken outside the sequential receive loop: it no longer reflects arrival order")
+		}
+	}
+	for _, st := range w.advances {
+		if fn := st.Parent(); isRecvLoop(fn) {
+			nIssue++
 			dom := false
 			for _, r := range callsWhere(fn, func(cc *ssa.CallCommon) bool { return calleeName(cc) == "recvPacket" }) {
-				lr, li := innermostLoop(loopsOf(fn), r.Block()), innermostLoop(loopsOf(fn), in.Block())
-				if dominates(r, in) && lr != nil && li != nil && lr.head == li.head {
+				lr, li := innermostLoop(loopsOf(fn), r.Block()), innermostLoop(loopsOf(fn), st.Block())
+				if dominates(r, st) && lr != nil && li != nil && lr.head == li.head {
 					dom = true
 				}
 			}
-			ok = dom
+			c.check(dom, "R3", "order id issued in "+fnName(fn), pos(st), "advanced in the receive loop, after the packet was received", "the order counter is advanced outside the receive loop")
 		}
-		c.check(ok, "R3", "caller of newOrderedRequest: "+fnName(fn), pos(in), "order id is taken in the single receive loop, right after the packet was received", "order id is taken outside the sequential receive loop: it no longer reflects arrival order")
 	}
-	// newOrderedResponse's order id argument is the request's orderID()
+	c.check(nIssue >= 2, "R3", "places where order ids are issued", "?", fmt.Sprintf("%d sites", nIssue), fmt.Sprintf("only %d sites issue order ids (the two receive loops expected)", nIssue))
+	// the order id of a response is its request's orderID()
 	var okOID func(v ssa.Value, depth int) (bool, string)
 	okOID = func(v ssa.Value, depth int) (bool, string) {
 		if depth > 5 {
@@ -632,33 +632,29 @@ func runC02R3(c *Ctx) {
 				if und || !ok {
 					return false, "parameter " + l.Param.Name() + " of " + fnName(l.Param.Parent())
 				}
+			case leafFieldLoad:
+				// orderedRequest.orderid read directly
+				if l.Field == "orderid" && l.Base != nil && typeName(l.Base.Type()) == "orderedRequest" {
+					continue
+				}
+				return false, "field " + l.Field
 			default:
 				return false, l.V.String()
 			}
 		}
 		return true, ""
 	}
-	for _, in := range p.callersOfStatic(newResp) {
-		args := argsOf(callOf(in))
-		ok, why := okOID(args[1], 0)
-		c.check(ok, "R3", "order id of response in "+fnName(in.Parent()), pos(in), "response carries the order id of the request it answers", "response is filed under an order id that is not its request's: "+why)
+	nResp := 0
+	for _, a := range p.literalsOfType("orderedResponse") {
+		v := litFieldWhere(a, isBasicKind(types.Uint32))
+		if v == nil {
+			continue
+		}
+		nResp++
+		ok, why := okOID(v, 0)
+		c.check(ok, "R3", "order id of a response built in "+fnName(a.Parent()), pos(a), "response carries the order id of the request it answers", "response is filed under an order id that is not its request's: "+why)
 	}
-	// newOrderedResponse stores its arguments unchanged
-	{
-		good := true
-		eachInstr(newResp, func(in ssa.Instruction) {
-			if st, ok := in.(*ssa.Store); ok {
-				if fa, ok := st.Addr.(*ssa.FieldAddr); ok {
-					if _, n, _, _ := fieldOf(fa); n == "orderid" {
-						if _, isParam := st.Val.(*ssa.Parameter); !isParam {
-							good = false
-						}
-					}
-				}
-			}
-		})
-		c.check(good, "R3", "newOrderedResponse stores id", p.Pos(newResp.Pos()), "orderid field is the id argument", "newOrderedResponse alters the order id")
-	}
+	c.check(nResp >= 1, "R3", "responses are numbered", "?", fmt.Sprintf("%d literals", nResp), "no orderedResponse is built with an order id")
 	for _, name := range []string{"(orderedRequest).orderID", "(orderedResponse).orderID"} {
 		fn := p.Func(name)
 		if fn == nil {
@@ -818,8 +814,13 @@ func runC02R3(c *Ctx) {
 					continue
 				}
 				cmp, ok := iff.Cond.(*ssa.BinOp)
-				if !ok || cmp.Op != token.EQL {
+				if !ok || (cmp.Op != token.EQL && cmp.Op != token.NEQ) {
 					continue
+				}
+				// `if a == b { send } else { break }` and `if a != b { break }; send` are the same guard
+				eqSide, neSide := 0, 1
+				if cmp.Op == token.NEQ {
+					eqSide, neSide = 1, 0
 				}
 				cx, okx := cmp.X.(*ssa.Call)
 				cy, oky := cmp.Y.(*ssa.Call)
@@ -828,7 +829,8 @@ func runC02R3(c *Ctx) {
 				}
 				hx, hy := headOf(recvOf(&cx.Call)), headOf(recvOf(&cy.Call))
 				if (hx == "incoming" && hy == "outgoing") || (hx == "outgoing" && hy == "incoming") {
-					if b.Succs[0].Dominates(send.Block()) && !b.Succs[1].Dominates(send.Block()) {
+					// the send is reached only through the "equal" edge
+					if onlyViaEdge(maybe, b, eqSide, func(in ssa.Instruction) bool { return in == send }) && !b.Succs[neSide].Dominates(send.Block()) {
 						guarded = true
 					}
 				}
